@@ -173,8 +173,10 @@ def run(ck, F, tier):
         PA = panicfree.run_inventory(s16, F, [c16.DB + 'deblock'], mech, scope=('deblock::',), floors={'sites': 80, 'functions': 12})
         panicfree.run_termination(s16, F, PA, 8)
     # a decoded picture has width >= 1 and height >= 1: into_width_and_height gives no size to a custom format with a zero dimension (C06's rule S, re-run here)
-    from . import c06_state
-    c06_state.rule_s(Scoped(ck, 'C06.'), F)
+    # .. and the size the planes are built from is the size the header signals: every header field with its width, presence condition and destination
+    # (width and height indications in the order they are transmitted), C06 re-run whole (it includes rule S)
+    from . import c06
+    c06.run(Scoped(ck, 'C06.'), F, tier)
     # "every successfully decoded picture EXPOSES planes": after a successful call get_last_picture() returns the picture just decoded - the accessor reads the
     # store under last_picture (C04 R1), last_picture := this picture's key and the picture is inserted under it (R2), and the clean-up that prunes the store
     # runs after those updates (R7)
